@@ -65,3 +65,8 @@ Definition pinned_setter_callers : list (string * string * string) :=
    ("x/gov/keeper/msg_server.go", "SetNetworkProperties", "SetNetworkProperties");  (* gated by the change permission *)
    ("x/gov/proposal_handler.go", "Apply", "SetNetworkProperty")]%string.   (* passed proposal *)
 Definition pinned_gate_perm : string := "PermChangeTxFee".
+
+(* an invalid genesis record must stop the import (the module wrapper discards InitGenesis's
+   return value, so returning the error instead would silently start the chain without
+   network properties) *)
+Definition pinned_genesis_error_handling : string := "if err != nil { panic(err) }".
